@@ -48,10 +48,25 @@ var inputs = map[string]string{
 	"tconflict": "grammar calc;\nAA = /[a-z]+/\nBB = /[a-z][a-z]*/\nstart = AA BB;\n",
 	"lalr":      "grammar calc;\nstart = start \"+\" start | \"i\";\n",
 	"keyword":   "grammar func;\nstart = \"a\";\n",
+	// exactly 256 and 512 problems of one kind (an exit status is one byte)
+	"many256": manyProblems(256),
+	"many512": manyProblems(512),
+	"many255": manyProblems(255),
 	"valid3":    bigSpec(),
 	"valid4":    "grammar empty;\nstart = ;\nx = start | ;\n", // an accepted specification without any terminal
 	// a token class with thousands of symbols: very long lines in the emitted transition function
 	"valid5": "grammar wide;\nHAN = /[\\x4E00-\\x9FFF]+/\nstart = { HAN | \"x\" };\n",
+}
+
+// manyProblems is a specification with n undefined non-terminals.
+func manyProblems(n int) string {
+	var b strings.Builder
+	b.WriteString("grammar calc;\nstart = \"x\"")
+	for i := 0; i < n; i++ {
+		fmt.Fprintf(&b, " | undef_%d", i)
+	}
+	b.WriteString(";\n")
+	return b.String()
 }
 
 // bigSpec is a specification with many keywords: its lexer.go is the largest file of the package.
@@ -145,6 +160,8 @@ type Config struct {
 	// Rel: the specification lies in a sub-directory of the working directory and is named by a relative path; -out (if
 	// given) is the relative path "gen". Relative paths are relative to the working directory, as for every tool.
 	Rel bool `json:"rel"`
+	// Tilde (with Rel): -out names the directory "~gen" of the working directory; $HOME holds a decoy directory "gen"
+	Tilde bool `json:"tilde"`
 }
 
 // renderRef renders the package of a specification in process and returns the directory that holds it.
@@ -219,6 +236,10 @@ func checkConfig(c Config) (summary string, err error) {
 		argOut := outDir
 		if c.Rel {
 			outDir, argOut = filepath.Join(work, "gen"), "gen"
+			if c.Tilde {
+				// a directory whose name starts with a tilde is a directory like any other (only a shell expands ~)
+				outDir, argOut = filepath.Join(work, "~gen"), "~gen"
+			}
 		}
 		switch c.OutState {
 		case "dir":
@@ -241,7 +262,7 @@ func checkConfig(c Config) (summary string, err error) {
 	effective := name
 	if effective == "" {
 		switch c.Input {
-		case "valid", "syntax", "lexical", "semantic", "pattern", "tconflict", "lalr":
+		case "valid", "syntax", "lexical", "semantic", "pattern", "tconflict", "lalr", "many255", "many256", "many512":
 			effective = "calc"
 		case "valid5":
 			effective = "wide"
@@ -309,6 +330,7 @@ func checkConfig(c Config) (summary string, err error) {
 		wantsVersion = wantsVersion || e == "-version"
 	}
 	args = append(args, argIn)
+	_ = os.MkdirAll(filepath.Join(sb, "home", "gen"), 0o755) // $HOME/gen: a decoy for a tool that expands "~gen"
 	before, err := snapshot(sb)
 	if err != nil {
 		return "", err
@@ -337,6 +359,8 @@ func checkConfig(c Config) (summary string, err error) {
 		cmd = exec.Command("prlimit", append([]string{fmt.Sprintf("--fsize=%d", c.Fsize), os.Getenv("VERIF_EMERGE_BIN")}, args...)...)
 	}
 	cmd.Dir = work
+	home := filepath.Join(sb, "home")
+	cmd.Env = append(os.Environ(), "HOME="+home)
 	var buf bytes.Buffer
 	cmd.Stdout, cmd.Stderr = &buf, &buf
 	rerr := cmd.Run()
@@ -462,7 +486,7 @@ var names = []string{"pkg", "P2", "über", "x_1", "func", "package", "go", "stri
 
 func genConfig(t *rapid.T) Config {
 	c := Config{
-		Input:    rapid.SampledFrom([]string{"valid", "valid", "valid3", "valid3", "valid2", "valid4", "valid5", "syntax", "lexical", "semantic", "pattern", "tconflict", "lalr", "keyword", "missing", "directory"}).Draw(t, "input"),
+		Input:    rapid.SampledFrom([]string{"valid", "valid", "valid3", "valid3", "valid2", "valid4", "valid5", "syntax", "lexical", "semantic", "pattern", "tconflict", "lalr", "keyword", "missing", "directory", "many255", "many256", "many512"}).Draw(t, "input"),
 		OutFlag:  rapid.SampledFrom([]string{"", "=", " ", "="}).Draw(t, "outFlag"),
 		OutState: rapid.SampledFrom([]string{"dir", "dir", "dir", "missing", "file"}).Draw(t, "outState"),
 		Pre:      rapid.SampledFrom([]string{"none", "none", "dir", "dirwithfiles", "dirwithlinks", "file", "symlinkdir", "dangling", "unrelated"}).Draw(t, "pre"),
@@ -496,6 +520,7 @@ func genConfig(t *rapid.T) Config {
 		}
 	}
 	c.Rel = rapid.IntRange(0, 3).Draw(t, "relativePaths") == 0
+	c.Tilde = c.Rel && rapid.Bool().Draw(t, "tildeName")
 	switch rapid.IntRange(0, 14).Draw(t, "info") {
 	case 0:
 		c.Extra = append(c.Extra, "-help")
